@@ -12,30 +12,36 @@ import (
 )
 
 // keyProv renders where a key component comes from, in terms of the enclosing method's keyID/created parameters.
-func keyProv(v ssa.Value, f *ssa.Function, depth int) string {
+func keyProv(v ssa.Value, f *ssa.Function, depth int) string { return keyProvB(v, f, nil, depth) }
+
+// keyProvB: as keyProv; bind maps the parameters of a literal-building helper to the arguments of the call in f.
+func keyProvB(v ssa.Value, f *ssa.Function, bind map[*ssa.Parameter]ssa.Value, depth int) string {
 	if depth > 8 {
 		return "?deep"
 	}
 	switch x := v.(type) {
 	case *ssa.Parameter:
+		if a, ok := bind[x]; ok {
+			return keyProvB(a, f, nil, depth+1)
+		}
 		return "P:" + x.Name()
 	case *ssa.MakeInterface:
-		return keyProv(x.X, f, depth+1)
+		return keyProvB(x.X, f, bind, depth+1)
 	case *ssa.ChangeType:
-		return keyProv(x.X, f, depth+1)
+		return keyProvB(x.X, f, bind, depth+1)
 	case *ssa.UnOp:
 		if x.Op == token.MUL {
 			if a, ok := x.X.(*ssa.Alloc); ok {
 				st := localStores(a)
 				if len(st) == 1 {
-					return keyProv(st[0], f, depth+1)
+					return keyProvB(st[0], f, bind, depth+1)
 				}
 			}
 		}
 	case *ssa.Alloc:
 		// &keyID (address-taken parameter) or a struct literal {S: …} / {N: …} / {Value: …}
 		if st := localStores(x); len(st) == 1 {
-			return keyProv(st[0], f, depth+1)
+			return keyProvB(st[0], f, bind, depth+1)
 		}
 		fl := litFields(x)
 		tn := namedTypeName(x.Type())
@@ -45,7 +51,7 @@ func keyProv(v ssa.Value, f *ssa.Function, depth int) string {
 				if k == "Value" {
 					kind = strings.TrimPrefix(tn, "AttributeValueMember")
 				}
-				return kind + ":" + keyProv(fv, f, depth+1)
+				return kind + ":" + keyProvB(fv, f, bind, depth+1)
 			}
 		}
 		return "?literal " + tn
@@ -57,22 +63,22 @@ func keyProv(v ssa.Value, f *ssa.Function, depth int) string {
 		switch funcFullName(g) {
 		case "time.Unix":
 			if k, isC := constOf(x.Call.Args[1]); isC && k.ExactString() == "0" {
-				return "unix(" + keyProv(x.Call.Args[0], f, depth+1) + ")"
+				return "unix(" + keyProvB(x.Call.Args[0], f, bind, depth+1) + ")"
 			}
 		case "strconv.FormatInt":
 			if k, isC := constOf(x.Call.Args[1]); isC && k.ExactString() == "10" {
-				return "dec(" + keyProv(x.Call.Args[0], f, depth+1) + ")"
+				return "dec(" + keyProvB(x.Call.Args[0], f, bind, depth+1) + ")"
 			}
 		case "strconv.Itoa":
-			return "dec(" + keyProv(x.Call.Args[0], f, depth+1) + ")"
+			return "dec(" + keyProvB(x.Call.Args[0], f, bind, depth+1) + ")"
 		}
 		if g.Pkg != nil && (g.Pkg.Pkg.Path() == "github.com/aws/aws-sdk-go/aws" || g.Pkg.Pkg.Path() == "github.com/aws/aws-sdk-go-v2/aws") && g.Name() == "String" {
-			return keyProv(x.Call.Args[0], f, depth+1)
+			return keyProvB(x.Call.Args[0], f, bind, depth+1)
 		}
 		return "?" + trimPkgDirs(funcFullName(g)) + "(" + func() string {
 			var p []string
 			for _, a := range x.Call.Args {
-				p = append(p, keyProv(a, f, depth+1))
+				p = append(p, keyProvB(a, f, bind, depth+1))
 			}
 			return strings.Join(p, ",")
 		}() + ")"
@@ -80,25 +86,64 @@ func keyProv(v ssa.Value, f *ssa.Function, depth int) string {
 		return "const " + x.Value.ExactString()
 	}
 	if r := resolve(v); r != v {
-		return keyProv(r, f, depth+1)
+		return keyProvB(r, f, bind, depth+1)
 	}
 	return "?" + accessPath(v)
 }
 
-// mapLitEntry: the value written under constant string key k into the map literal v.
-func mapLitEntry(v ssa.Value, key string) ssa.Value {
-	mm, ok := resolve(v).(*ssa.MakeMap)
-	if !ok {
-		return nil
-	}
-	for _, r := range *mm.Referrers() {
-		if mu, ok := r.(*ssa.MapUpdate); ok && mu.Map == mm {
-			if k, isC := constOf(mu.Key); isC && k.Kind() == constant.String && constant.StringVal(k) == key {
-				return mu.Value
+// mapLit: the constant-keyed entries of a map value that is a literal of this function (MakeMap + MapUpdates), or the
+// literal a same-package helper returns (every return the same MakeMap) plus the entries the caller adds to the result.
+// bind maps the helper's parameters to the call's arguments.
+func mapLit(v ssa.Value) (map[string]ssa.Value, map[*ssa.Parameter]ssa.Value) {
+	v = resolve(v)
+	entries := map[string]ssa.Value{}
+	collect := func(m ssa.Value) {
+		refs := m.Referrers()
+		if refs == nil {
+			return
+		}
+		for _, r := range *refs {
+			if mu, ok := r.(*ssa.MapUpdate); ok && mu.Map == m {
+				if k, isC := constOf(mu.Key); isC && k.Kind() == constant.String {
+					entries[constant.StringVal(k)] = mu.Value
+				}
 			}
 		}
 	}
-	return nil
+	switch x := v.(type) {
+	case *ssa.MakeMap:
+		collect(x)
+		return entries, nil
+	case *ssa.Call:
+		g := staticCallee(x)
+		if g == nil || g.Blocks == nil || g.Pkg == nil || x.Parent() == nil || x.Parent().Pkg == nil || g.Pkg != rootFunc(x.Parent()).Pkg {
+			return nil, nil
+		}
+		var mm *ssa.MakeMap
+		for _, r := range returnsOf(g) {
+			if len(r.Results) != 1 {
+				return nil, nil
+			}
+			m2, ok := resolve(returnedValue(r, 0)).(*ssa.MakeMap)
+			if !ok || (mm != nil && mm != m2) {
+				return nil, nil
+			}
+			mm = m2
+		}
+		if mm == nil {
+			return nil, nil
+		}
+		collect(mm)
+		collect(x)
+		bind := map[*ssa.Parameter]ssa.Value{}
+		for k, p := range g.Params {
+			if k < len(x.Call.Args) {
+				bind[p] = x.Call.Args[k]
+			}
+		}
+		return entries, bind
+	}
+	return nil, nil
 }
 
 func ruleC13KeyFidelity(c *Ctx) {
@@ -176,10 +221,11 @@ func ruleC13KeyFidelity(c *Ctx) {
 						continue
 					}
 					n++
-					id, cr := mapLitEntry(mv, "Id"), mapLitEntry(mv, "Created")
+					ents, bind := mapLit(mv)
+					id, cr := ents["Id"], ents["Created"]
 					got := "Id=?, Created=?"
 					if id != nil && cr != nil {
-						got = "Id=" + keyProv(id, f, 0) + ", Created=" + keyProv(cr, f, 0)
+						got = "Id=" + keyProvB(id, f, bind, 0) + ", Created=" + keyProvB(cr, f, bind, 0)
 					}
 					c.check(got == "Id=S:P:keyID, Created=N:dec(P:created)", name+"/"+want, u.ipos(rs.Call), "Id = S:keyID, Created = N:FormatInt(created, 10)", "the DynamoDB "+want+" is built as ("+got+") instead of (Id = S:keyID, Created = N:decimal(created))")
 				}
